@@ -2,6 +2,8 @@ package fovc
 
 import (
 	"fmt"
+	"os"
+	"runtime/debug"
 	"go/ast"
 	"go/types"
 	"sort"
@@ -95,6 +97,9 @@ func (e *Engine) VerifyFunc(key string, prop string) (res *FuncResult, err error
 		if r := recover(); r != nil {
 			res = nil
 			err = fmt.Errorf("fovc internal error while generating the obligations of %s: %v", key, r)
+			if os.Getenv("FOVC_DEBUG") != "" {
+				debug.PrintStack()
+			}
 		}
 	}()
 	return e.verifyFunc(key, prop)
@@ -173,6 +178,12 @@ func (e *Engine) verifyFunc(key string, prop string) (*FuncResult, error) {
 	}
 	for _, es := range fc.heapElems {
 		fc.heapOf(st, es)
+	}
+	for _, g := range con.GhostIns {
+		so := fc.sortOfSType(g.Type, nil)
+		name := "gin_" + sanitize(g.Name)
+		fc.declare(name, so)
+		st.ghost[g.Name] = T(name, so)
 	}
 	for _, g := range con.Ghosts {
 		so := fc.sortOfSType(g.Type, nil)
